@@ -133,7 +133,8 @@ def sameSet (a b : List Bytes) : Bool := a.all (fun x => b.any (· == x)) && b.a
 
 inductive ContractBreach where
   | none
-  | foundOtherRp        -- a credential bound to another RP was returned (its id was listed, or no list given)
+  | foundOtherRp        -- a credential bound to another RP was returned, its id being listed
+  | foundOtherRpNoList  -- a credential bound to another RP was returned although no id list was given
   | foundUnlisted       -- a credential not named in the id list was returned
   | nothingWithoutList  -- no id list given, credentials for the RP exist, none returned
   | missedListed        -- an id list given, a listed credential of the RP exists, not returned
@@ -149,7 +150,7 @@ def c05_store_contract (pre : List PkSnap) (trace : List EvObs) : ContractBreach
     let listed (x : Bytes) : Bool := match ids with | none => true | some l => l.any (· == x)
     if !isNoCred then .none          -- an injected fault, not the store's answer
     else if !(got.all listed) then .foundUnlisted
-    else if !(got.all (fun x => want.any (· == x))) then .foundOtherRp
+    else if !(got.all (fun x => want.any (· == x))) then (if ids.isNone then .foundOtherRpNoList else .foundOtherRp)
     else if !(want.all (fun x => got.any (· == x))) then (if ids.isNone then .nothingWithoutList else .missedListed)
     else .none
   | _ => .none
